@@ -237,8 +237,10 @@ def draw_codecs(rng, n):
     fixed = ["sof=55;hdr=S,L2le,I;foot=sum2be",          # the built-in layout with another checksum
              "sof=00;hdr=S,I,F7e,L1;foot=sum3be",        # start byte 0x00
              "sof=aa;hdr=S,F,Fff,F,L2be,F,I;foot=crc32le",   # 8-byte header
-             "sof=55;hdr=S,L1,I;foot=xor"]               # 3-byte header, 1-byte footer
-    out = list(fixed[:max(0, min(len(fixed), n // 6))])
+             "sof=55;hdr=S,L1,I;foot=xor",               # 3-byte header, 1-byte footer
+             "sof=7e;hdr=S,L4le,I;foot=crc32be",         # 32-bit length field
+             "sof=55;hdr=S,I,L3be,F;foot=sum2le"]        # 24-bit length field, big-endian
+    out = list(fixed[:max(0, min(len(fixed), n // 4))])
     k = 0
     hls = [3, 4, 5, 6, 7, 8]
     while len(out) < n:
@@ -315,9 +317,24 @@ class C20(Prop):
             yield pre + f"reqstart {rng.randrange(2)}", "builder-start"
             yield pre + f"reqchinfo {rng.randrange(255)}", "builder-chinfo"
             lim = 256 ** rc.len_n - rc.hdr_len - rc.foot_len      # first payload length that does not fit
-            if rc.len_n == 1 or ci % 8 == 0:
+            if rc.len_n == 1 or (rc.len_n == 2 and ci % 4 == 0):
                 for n in (lim - 1, lim):
                     yield pre + f"create 1 {hexs(bytes((i * 31 + n) & 0xFF for i in range(n)))}", "create-boundary"
+            if rc.len_n >= 3:
+                # frames longer than the built-in codec's 16-bit length field can express
+                for total in (65536, 65537 + rng.randrange(5000)):
+                    n = total - rc.hdr_len - rc.foot_len
+                    pl = bytes((i * 29 + total + (i >> 8)) & 0xFF for i in range(n))
+                    big = rc.create(6, pl)
+                    yield pre + f"create 6 {hexs(pl)}", "create-over-64k"
+                    yield pre + f"decode {hexs(big)}", "decode-over-64k"
+                    b = bytearray(big)
+                    b[rng.randrange(len(b))] ^= 1 << rng.randrange(8)
+                    yield pre + f"decode {hexs(bytes(b))}", "decode-over-64k-damaged"
+                    k1, k2 = rng.randrange(1, 3000), 65530 + rng.randrange(12)
+                    tail = valid_frame(rng, rc)
+                    yield pre + f"reasm run {hexs(big[:k1])},{hexs(big[k1:k2])},-,{hexs(big[k2:] + tail)}", "reasm-over-64k"
+                    yield pre + f"recv handle {hexs(big + bytes(rng.randrange(0, 9)))}", "request-over-64k"
             for _ in range(6):
                 f = valid_frame(rng, rc)
                 yield pre + f"decode {hexs(f)}", "decode-valid"
